@@ -132,12 +132,12 @@ def compose(rnd):
         m0["includes"].append("m0s1")
         s1["imports"] = list(m0["imports"])
     feats = ["uses_in_uses", "uses_in_augment", "augment_into_uses", "sub_augments", "shorthand_everywhere", "ns_under_list",
-             "augment_chain", "lazy_io", "deviate_attrs", "rpc_choice_input", "augment_via_implicit_case", "augment_choice_members", "augment_choice_members", "orphan_submodule", "empty_hooks",
+             "augment_chain", "lazy_io", "deviate_attrs", "rpc_choice_input", "augment_via_implicit_case", "augment_choice_members", "augment_choice_members", "orphan_submodule", "augment_rpc_node", "empty_hooks",
              "empty_hooks"]
     late = ["two_augments_same", "two_augments_modules", "augment_vs_uses", "augment_leaf_target", "augment_missing",
             "dev_missing", "dev_min_nonlist", "dev_add_default_twice", "dev_delete_mismatch", "dev_ns_twice", "dev_bad_type",
             "dev_max_zero", "dup_in_uses", "unknown_type_rpc_input", "choice_dup_after_fix", "sub_dup", "ns_on_input",
-            "dev_unknown_kind"]
+            "dev_unknown_kind", "dup_into_second_copy", "dup_into_second_copy"]
     chosen = list(dict.fromkeys(r.sample(feats, r.randint(2, 5))))
     if r.random() < 0.45:
         chosen += r.sample(late, r.randint(1, 2))
@@ -433,6 +433,43 @@ def f_orphan_submodule(b, m0, m1, s1):
         orph["augments"].append((path("ix", [c[1]]), [b.leaf(c[3][0][1])]))      # conflict: must be reported
 
 
+def f_dup_into_second_copy(b, m0, m1, s1):
+    """a grouping used twice in one module (rpc input and output; two containers); an augment collides with a node of ONE
+    of the copies (sometimes of each): the error is recorded late, on a copy whose statement another copy shares"""
+    r = b.r
+    x = b.cont([b.leaf("a"), b.leaf()], name=b.n("x"))
+    g = b.grouping([x, b.leaf()])
+    m0["body"].append(g)
+    if r.random() < 0.6:
+        rp = ("rpc", False, b.n("rpc"), [("uses", g[2])], [("uses", g[2])])
+        m0["body"].append(rp)
+        sites = [[rp[2], "input"], [rp[2], "output"]]
+    else:
+        c1, c2 = b.cont([("uses", g[2])]), b.cont([("uses", g[2])])
+        m0["body"] += [c1, c2]
+        sites = [[c1[1]], [c2[1]]]
+    hit = r.sample(sites, r.choice([1, 1, 2]))
+    for st in hit:
+        src, pfx = r.choice([(m0, "p0"), (m1, "x0")])
+        src["augments"].append((path(pfx, st + [x[1]]), [b.leaf("a")]))       # collides with leaf a of that copy
+
+
+def f_augment_rpc_node(b, m0, m1, s1):
+    """an augment whose path names an rpc / action node ITSELF (its child map exists and is empty), in a module whose
+    other augments all resolve"""
+    r = b.r
+    rp = ("rpc", False, b.n("rpc"), [b.leaf()] if r.random() < 0.5 else None, None)
+    act = ("rpc", True, b.n("act"), [b.leaf()], None)
+    holder = b.cont([act, b.leaf()])
+    m0["body"] += [rp, holder]
+    src, pfx = r.choice([(m0, "p0"), (m1, "x0")])
+    if r.random() < 0.7:
+        src["augments"].append((path(pfx, [rp[2]]), [b.leaf()]))
+    if r.random() < 0.5:
+        src["augments"].append((path(pfx, [holder[1], act[2]]), [b.cont([b.leaf()])]))
+    src["augments"].append((path(pfx, [holder[1]]), [b.leaf()]))
+
+
 def f_rpc_choice_input(b, m0, m1, s1):
     g = b.grouping([b.shorthand_choice(), b.leaf()])
     m0["body"].append(g)
@@ -683,6 +720,46 @@ def on_demand_ops(schema, rnd):
     return ",".join(["D%d" % i for i in lazy] + ["L%d" % i for i in sorted(roots)] + ["P"]), len(lazy)
 
 
+# ------------------------------------------------------------------ family "refine" (text level, implementation only)
+# The library ignores the refine substatements of uses (the property excludes refine; the core model has none): the result
+# must be exactly the one of the same text without them, and the trees must be proper.
+def gen_refine(rnd):
+    r = rnd
+    nodes = [("box", "container box { leaf inner { type string; } }"), ("lf", "leaf lf { type string; }"),
+             ("ll", "leaf-list ll { type string; }"), ("li", "list li { key k; leaf k { type string; } }"),
+             ("ch", "choice ch { leaf m1 { type string; } container m2 { leaf q { type string; } } }"), ("ax", "anyxml ax;"),
+             ("ad", "anydata ad;")]
+    r.shuffle(nodes)
+    nodes = nodes[:r.randint(2, len(nodes))]
+    subst = ['description "d";', 'default "x";', "config false;", "mandatory true;", "min-elements 1;", "max-elements 4;",
+             'presence "p";', 'reference "r";']
+
+    def refines():
+        out = ""
+        for nm, _ in r.sample(nodes, r.randint(1, len(nodes))):
+            tgt = nm if nm != "box" or r.random() < 0.6 else "box/inner"
+            out += "      refine %s { %s }\n" % (tgt, " ".join(r.sample(subst, r.randint(1, 3))))
+        return out
+    sites = []
+    for i in range(r.randint(2, 3)):
+        k = r.choice(["container", "list", "rpcio"])
+        sites.append((k, i))
+    def text(with_refine):
+        rr = random.Random(7)
+        body = "  grouping g {\n%s  }\n" % "".join("    %s\n" % t for _, t in nodes)
+        for (k, i), ref in zip(sites, refs):
+            u = "uses g {\n%s    }" % ref if with_refine and ref else "uses g;"
+            if k == "container":
+                body += "  container c%d {\n    %s\n  }\n" % (i, u)
+            elif k == "list":
+                body += "  list l%d {\n    %s\n  }\n" % (i, u)
+            else:
+                body += "  rpc r%d {\n    input {\n    %s\n    }\n    output {\n    %s\n    }\n  }\n" % (i, u, u)
+        return 'module m0 {\n  namespace "urn:m0";\n  prefix p0;\n%s}\n' % body
+    refs = [refines() for _ in sites]
+    return text(True), text(False)
+
+
 # ------------------------------------------------------------------ run
 def run_go(lines):
     tmp = tempfile.mkdtemp(prefix="c04cwd")
@@ -880,6 +957,33 @@ def run(res, tier, seed, proof):
                 violation("tree invariant violated after Process / ClearEntryCache / Process: %s" % "; ".join(bad[:3]),
                           dict(rep, treeviol=bad[:10]))
 
+    # ---- family "refine" (implementation only)
+    n_ref = 120 if tier == "quick" else 2500
+    refc = [gen_refine(random.Random(rnd.getrandbits(64))) for _ in range(n_ref)]
+    ref_lines = []
+    for a, b_ in refc:
+        for t in (a, b_):
+            ref_lines.append("process - L0,P 1 %s %s" % (sg.hx("m0.yang"), sg.hx(t)))
+    ref_go = run_go(ref_lines)
+    stats["refine_cases"] = n_ref
+    for k, (a, b_) in enumerate(refc):
+        sa, ca, ja = sg.canon_go(ref_go[2 * k])
+        sb, cb, jb = sg.canon_go(ref_go[2 * k + 1])
+        rep = dict(kind="revisions", go_case=ref_lines[2 * k], text=a)
+        if sb != "ok":
+            violation("refine family: the text without refine was not processed cleanly (generator error): %s" % ref_go[2 * k + 1][:200], rep)
+            continue
+        if (sa, ca) != (sb, cb):
+            violation("the refine substatements of a uses changed the result (the library ignores refine): with=%s" % sa,
+                      dict(rep, with_refine=(ca or sa)[:2000], without=(cb or sb)[:2000]))
+            continue
+        bad = list(ja["runs"][-1]["treeviol"] or [])
+        for md in ja["runs"][-1]["modules"]:
+            walk_flags(md["tree"], bad)
+        if bad:
+            violation("tree invariant violated after a clean Process of uses with refine: %s" % "; ".join(bad[:3]),
+                      dict(rep, treeviol=bad[:10]))
+
     # ---- family "revisions" (implementation only)
     n_rev = 200 if tier == "quick" else 4000
     revc = [gen_revisions(random.Random(rnd.getrandbits(64))) for _ in range(n_rev)]
@@ -917,7 +1021,7 @@ def run(res, tier, seed, proof):
                 violation("tree invariant violated after a clean Process (some revision's tree): %s" % "; ".join(bad[:3]),
                           dict(rep, treeviol=bad[:10]))
     cov = dict(
-        evaluations=len(cases) + len(side_idx) + n_rev + len(od_lines) + len(hi_lines), distinct_nontrivial=stats["ok"] + stats["err"],
+        evaluations=len(cases) + len(side_idx) + n_rev + len(od_lines) + len(hi_lines) + 2 * n_ref, distinct_nontrivial=stats["ok"] + stats["err"],
         rule="family `histories`: 60% of the sets once more through Process / ClearEntryCache / Process (shapes P,C,P; P,P; "
              "P,C,P,C,P; C,P,C,P; partly with modules left to the search path): verdict, forest and walker as after a single "
              "Process.  Sets consisting of submodules only (shorthand choices, uses, rpc input, unknown type, duplicate, "
